@@ -30,6 +30,13 @@ CLAIMED = {
     "C09": ("4/C09", "Bayes identity as C07; round trip at Dx+Dy<=3 with the prior covariance concrete for Dx+Dy=3"),
     "C10": ("4/C10", "all conditional kinds, Dx != Dy included, R=1 with N<=2 (3 thorough) observations and R=N; well-formedness through product/slice/multiply/log_integral"),
     "C13": ("4/C13", "entropy/KL/conditional entropy/MI equalities against Stein-moment expectations; KL>=0 and MI>=0 solver-decided only for D=Dx=Dy=1"),
+    "C11": ("4/C11", "regression N=2 (3 thorough): sequential in every order, joint+condition_on, prior*prod set_y, evidence; Kalman T=2 (3 thorough) vs dense joint built by the spec; Dw,Dz<=2 with matrices partly bound to generic rationals"),
+    "C12": ("4/C12", "op(obj).slice(idx') = op(obj.slice(idx)) for enumerated index arrays (repeats, negatives, permutations) over R in {2,3}; all classes and operations listed in evidence; index arrays are enumerated, values solved"),
+    "C14": ("4/C14", "log-factor for all factor kinds; linear conditionals with arbitrary Gaussian q; LRBF/LSEM with tilted-Gaussian closed-form oracle, Dx=1, Dk<=2 (Dx=2 thorough)"),
+    "C15": ("4/C15", "relational: specialised vs general class built from the same parameters, all operations the specialised class supports; D=2, R<=2, Dx+Dy<=3 (identity D<=2)"),
+    "C16": ("4/C16", "(a) moments of LRBF/LSEM/exp/cosh-1 against tilted-Gaussian closed forms + structure of condition_on_x; (b) assembly for all six classes with stubbed symbolic moments; step/relu link moments NOT covered"),
+    "C17": ("4/C17", "ONLY the coherence clause (mean, covariance, precision = inverse, log-determinant of condition_on_x for all four links, link value arbitrary); the lower-bound / tightness clauses are declined (no closed-form right-hand side)"),
+    "C18": ("4/C18", "round trips (tree flatten/unflatten, jit boundary, tree_map, to_dict/from_dict, scan carry) for every class; vmap and grad as translation validation on 6 pipelines; 'jit == eager' and 'all programs' are outside"),
     "C19": ("4/C19", "jax.random.normal stubbed by an arbitrary array; R<=2, D<=3, n<=2"),
 }
 
